@@ -130,6 +130,8 @@ vnacal_new_t *vnacal_new_alloc(vnacal_t *vcp, vnacal_type_t type,
     vnp->vn_frequencies_valid = false;
     if (_vnacal_new_init_parameter_hash(__func__,
 		&vnp->vn_parameter_hash) == -1) {
+	_vnacal_error(vcp, VNAERR_SYSTEM,
+		"realloc: %s", strerror(errno));
 	vnacal_new_free(vnp);
 	return NULL;
     }
